@@ -3329,6 +3329,11 @@ class ISLaSolver:
                             existential_formula,
                         )
                         break
+                    except TimeoutError:
+                        # The unsatisfiability check exhausted its own (2s) budget. This
+                        # is inconclusive: keep the state, and do not let the timeout of
+                        # the nested search escape from the solve() call of the user.
+                        pass
                     finally:
                         self.start_time = old_start_time
                         self.timeout_seconds = old_timeout_seconds
